@@ -31,6 +31,11 @@ def _work(job):
     try:
         mod = importlib.import_module(modname)
         contract = getattr(mod, clsname)()
+        if contract.native_only:
+            return {"contract": contract.name, "target": contract.target, "case": case["name"], "module": modname, "case_params": case,
+                    "paths": [], "obligations": [], "generation_errors": [], "lib": [], "solver_s": 0.0, "canaries": {},
+                    "counterexamples": {}, "bounded": {"N": 0, "length_names": [], "runs": 0, "sat_paths": 1, "returning_paths": 0},
+                    "bounded_clauses": ["<every clause of this contract>"], "proved_clauses": [], "wall_s": 0.0, "native_only": True}
         s = engine.check_case(contract, case, tier)
         s["module"] = modname
         s["case_params"] = case
